@@ -208,13 +208,12 @@ pub fn run(args: &Args) {
     let Some(shard) = shard_or_spawn("replay-reject", args) else { return };
     let prop = args.get("prop").unwrap_or("C15").to_string();
     let seed = args.num("seed", 1);
-    let (n_all, lines) = read_tlc_lines_sharded(args.req("in"), "REPLAY", shard);
-    if n_all == 0 {
-        eprintln!("no REPLAY lines");
-        std::process::exit(2);
-    }
     let mut st = Stats::default();
-    for (i, l) in lines.iter().enumerate() {
+    let mut n_lines = 0usize;
+    // streamed: the thorough configurations emit millions of histories
+    let n_all = stream_tlc_lines_sharded(args.req("in"), "REPLAY", shard, |i, l| {
+        let l = &l;
+        n_lines += 1;
         st.cases += 1;
         let rejected = arr(&l["calls"]).iter().filter(|c| !c["ok"].as_bool().unwrap_or(true)).count();
         if rejected > 0 {
@@ -231,8 +230,12 @@ pub fn run(args: &Args) {
         if st.samples.is_empty() && rejected >= 2 && i % 53 == 7 {
             st.samples.push(l.clone());
         }
+    });
+    if n_all == 0 {
+        eprintln!("no REPLAY lines");
+        std::process::exit(2);
     }
-    finish(st, args.req("out"), args.req("replay-dir"), json!({"lines": lines.len()}));
+    finish(st, args.req("out"), args.req("replay-dir"), json!({"lines": n_lines}));
 }
 
 pub fn replay_one(v: &Value) -> bool {
